@@ -277,8 +277,12 @@ def check_case(ctx, git, tree, patterns, feats, base, cls):
         pre.append((verdict, why, relreal))
         if relreal is not None:
             need.add(relreal)
+    def parents(rel):
+        parts = rel.split("/")[:-1]
+        return ["/".join(parts[:i]) for i in range(1, len(parts) + 1)]
+
     try:
-        ign = git.ignored(realroot, patterns, sorted(need))
+        ign = git.ignored(realroot, patterns, sorted(need | {d for r in need for d in parents(r)}))
     except Exception as e:
         acc.inconc(f"git oracle failed: {e}")
         return
@@ -311,7 +315,8 @@ def check_case(ctx, git, tree, patterns, feats, base, cls):
                 n_excl += 1
             if obs is not verdict:
                 problems.append({"query": path, "cwd": cwd, "relative": rel, "spelling": kind, "expected": verdict,
-                                 "reason": why, "observed": obs})
+                                 "reason": why, "observed": obs,
+                                 "parent_dir_ignored": bool(relreal) and any(ign.get(d) for d in parents(relreal))})
     finally:
         os.chdir(old)
     # enumeration
@@ -334,14 +339,22 @@ def check_case(ctx, git, tree, patterns, feats, base, cls):
                 if not ign2.get(os.path.relpath(rc, realroot), False):
                     real_members.add(rc)
         if listed_real != real_members:
+            extra = sorted(os.path.relpath(x, realroot) for x in listed_real - real_members)
+            pign = git.ignored(realroot, patterns, sorted({d for r in extra if not r.startswith("..") for d in parents(r)}))
             problems.append({"query": "list(CodeBase)", "expected": sorted(os.path.relpath(x, realroot) for x in real_members),
-                             "observed": sorted(os.path.relpath(x, realroot) for x in listed_real)})
+                             "observed": sorted(os.path.relpath(x, realroot) for x in listed_real),
+                             "every_extra_below_ignored_dir": bool(extra) and not (real_members - listed_real) and
+                             all(any(pign.get(d) for d in parents(r)) for r in extra)})
         for p in listed:
             if p not in cb:
                 problems.append({"query": "enumerated path is not a member", "path": p})
     except Exception as e:
         problems.append({"query": "list(CodeBase)", "observed": f"{type(e).__name__}: {e}"})
     nontriv = case if (n_member and n_excl) else None
+    if problems and any("[[:" in p for p in patterns):
+        # differential classification: the same query with the POSIX-class patterns removed from the list; if code and
+        # git agree then, the disagreement is due to those patterns
+        problems[0]["agrees_without_posix_class_patterns"] = agrees_without(git, root, realroot, patterns, problems[0])
     if problems:
         mech = classify(patterns, problems[0].get("observed"), problems[0])
         acc.violated({"input": case, "witness": {"patterns": patterns, "problems": problems[:6], "files": tree["files"],
@@ -353,20 +366,39 @@ def check_case(ctx, git, tree, patterns, feats, base, cls):
                          "members": n_member, "excluded_queries": n_excl})
 
 
+def agrees_without(git, root, realroot, patterns, problem):
+    from codebasin import CodeBase
+    p2 = [p for p in patterns if "[[:" not in p]
+    try:
+        cb2 = CodeBase(root, exclude_patterns=p2)
+        if problem.get("query") == "list(CodeBase)":
+            listed = {os.path.relpath(os.path.realpath(x), realroot) for x in cb2}
+            cand = sorted(set(problem.get("expected", [])) | set(problem.get("observed", [])) | listed)
+            cand = [c for c in cand if not c.startswith("..")]
+            ign = git.ignored(realroot, p2, cand)
+            return all((c in listed) == (not ign.get(c, False)) for c in cand)
+        full = problem["query"] if os.path.isabs(problem["query"]) else os.path.join(os.path.realpath(problem["cwd"]), problem["query"])
+        rel = os.path.relpath(os.path.realpath(full), realroot)
+        ign = git.ignored(realroot, p2, [rel])
+        return (os.path.realpath(full) in cb2) == (not ign.get(rel, False))
+    except Exception:
+        return False
+
+
 def classify(patterns, observed, problem):
     """Known-finding predicates (on the pattern list and the failing query)."""
     pats = [p for p in patterns]
-    if any("[[:" in p for p in pats) and problem and problem.get("reason") in ("excluded", "member", None):
+    if any("[[:" in p for p in pats) and problem and problem.get("reason") in ("excluded", "member", None) \
+            and problem.get("agrees_without_posix_class_patterns"):
         return "posix-character-class-in-pattern"
     if any(p.strip() == "!" for p in pats) and isinstance(observed, str) and "Error" in observed:
         return "lone-bang-pattern-raises"
     if problem and problem.get("expected") is False and problem.get("reason") == "excluded" and problem.get("observed") is True:
-        # git: a file below an excluded directory cannot be re-included
-        if any(p.startswith("!") for p in pats):
+        # git: a file below an excluded directory cannot be re-included (git itself reports a parent directory as ignored)
+        if any(p.startswith("!") for p in pats) and problem.get("parent_dir_ignored"):
             return "negation-reincludes-below-excluded-directory"
     if problem and problem.get("query") == "list(CodeBase)" and any(p.startswith("!") for p in pats):
-        exp, obs = set(problem.get("expected", [])), set(problem.get("observed", []))
-        if isinstance(problem.get("observed"), list) and exp < obs:
+        if problem.get("every_extra_below_ignored_dir"):
             return "negation-reincludes-below-excluded-directory"
     return None
 
